@@ -22,3 +22,10 @@ check("C04", "exploration",
       "their own start hour +-1 minute; a failure is attributed to the clause it breaks (before reference, written field "
       "not preserved, not nearest, today-convention).",
       _D, "API call/return monitor + calendar reference model (nearest future match) over full-cycle sweeps", "DESIGN.md 3/C04")
+
+check("C05", "exploration",
+      "Exact (y,m,d,h,mi) under three reference times per text (1975..2099 and the day itself) for every calendar date "
+      "1990-2029 (thorough) in 25 notations with and without a clock part; held except for the listed findings "
+      "(two-digit years 90-99; beam truncation on eight named-month families), which are reported as KNOWN-FINDING.",
+      _D + "; configuration E (max_stack_depth=0) only labels a failure as beam truncation",
+      "API call/return monitor, three executions per text; exact-value + reference-time-invariance oracle over a full date sweep", "DESIGN.md 3/C05")
